@@ -60,6 +60,7 @@ void alloc_trip(char const* what);
     g_trap.func        = func;
     g_trap.expr        = expr;
     g_trap.isException = isException;
+    g_trap.userCalls   = g_user_calls != nullptr ? g_user_calls() : 0;
     std::longjmp(g_trap.env, 1);
 }
 
